@@ -647,3 +647,23 @@ def ordered_set_fields(src):
     if table is None or order is None:
         raise AnalysisError('_util:OrderedSet.__init__: no empty dictionary next to a LinkedList (the representation of the key set changed)')
     return table, order
+
+
+def list_attr_of(src, modname, cname):
+    """the attribute in which an element class keeps the list it is built from (the constructor -- its own or the one it inherits --
+    stores its one list parameter there): read off the code, its private name is the class's business"""
+    from ..core import norm, AnalysisError
+    mod = src.mod(modname)
+    for c in mod.mro(cname):
+        init = mod.funcs.get(c + '.__init__')
+        if init is None:
+            continue
+        params = init.params()[1:]
+        for st in ast.walk(init.node):
+            if isinstance(st, (ast.Assign, ast.AnnAssign)):
+                tgt = st.targets[0] if isinstance(st, ast.Assign) else st.target
+                v = st.value
+                if isinstance(tgt, ast.Attribute) and norm(tgt.value) == 'self' and isinstance(v, ast.Name) and v.id in params:
+                    return tgt.attr
+        # (a constructor that only hands its parameter to the base class: look there)
+    raise AnalysisError('%s:%s: no constructor that stores its list parameter in an attribute' % (modname, cname))
